@@ -134,7 +134,7 @@ class FnSplicer:
     def splice(self):
         rf, it, spec = self.rf, self.it, self.spec
         known = {'result', 'requires', 'ensures', 'decreases', 'loops', 'proofs', 'closures', 'props', 'note',
-                 'unroll_fn_array', 'opens_invariants', 'no_unwind', 'external_body', 'returns', 'mode_attr', 'assumed', 'slice_matches', 'retain', 'take_while_count', 'proved_in', 'rev_find', 'filter_map_collect', 'map_sum', 'for_each'}
+                 'unroll_fn_array', 'opens_invariants', 'no_unwind', 'external_body', 'returns', 'mode_attr', 'assumed', 'slice_matches', 'retain', 'take_while_count', 'proved_in', 'rev_find', 'filter_map_collect', 'map_sum', 'for_each', 'opaque_bools', 'drop_lets'}
         bad = set(spec) - known
         if bad:
             raise ExtractError(f'unknown spec keys {bad}')
@@ -207,6 +207,8 @@ class FnSplicer:
             self._r13(dict(spec['map_sum']))
         if spec.get('for_each'):
             self._r14(list(spec['for_each']))
+        if spec.get('opaque_bools') or spec.get('drop_lets'):
+            self._a1(list(spec.get('opaque_bools', [])), list(spec.get('drop_lets', [])))
         # --- proof / ghost insertions
         for p in spec.get('proofs', []):
             self._splice_proof(p, loops)
@@ -725,6 +727,47 @@ class FnSplicer:
             ci += 1
         if found != len(cfgs):
             raise ExtractError(f'{self._where()}: R14: {len(cfgs)} specs for {found} `.iter_mut().for_each(..)` statements')
+
+    def _a1(self, exprs, lets):
+        """A1 (an ABSTRACTION, not a desugaring): every occurrence of one of the listed boolean expressions is replaced by `any_bool()`
+        (an external_body function without postcondition: an arbitrary bool), and the listed `let NAME = ..;` statements, whose only
+        uses were inside those expressions, are dropped. Sound for panic-freedom, termination and every postcondition that is proved for
+        ALL values of these tests, PROVIDED the replaced expressions themselves neither panic nor diverge (they are calls of total std
+        functions on str: to_string / trim / == / is_empty / first().is_some_and(..)); what the tests decide is NOT verified.
+        Each replacement is recorded under coverage.desugared with rule A1."""
+        rf, it = self.rf, self.it
+        lo = it.body[0] + 1; end = it.body[1]
+        covered = []                       # token ranges replaced or dropped
+        for ex in exprs:
+            etoks = [t.text for t in RustFile('<expr>', ex).toks if t.kind not in ('ws', 'lcomment', 'bcomment', 'doc')]
+            ci = lo; hits = 0
+            while ci + len(etoks) <= end:
+                if [rf.ct(ci + k).text for k in range(len(etoks))] == etoks and not any(a <= ci < b for a, b in covered):
+                    self.ed.replace(rf.ct(ci).start, rf.ct(ci + len(etoks) - 1).end, 'any_bool()')
+                    covered.append((ci, ci + len(etoks))); hits += 1
+                    ci += len(etoks); continue
+                ci += 1
+            if not hits:
+                raise ExtractError(f'{self._where()}: A1: expression `{ex}` not found')
+            self.desugared.append({'rule': 'A1 (abstraction)', 'before': ex, 'after': f'any_bool()   [{hits} occurrence(s)]'})
+        for name in lets:
+            ci = lo; hit = None
+            while ci < end:
+                if rf.ct(ci).text == 'let' and rf.ct(ci + 1).text == name and rf.ct(ci - 1).text in (';', '{', '}'):
+                    k = ci
+                    while k < end and rf.ct(k).text != ';':
+                        k = rf.match(k) + 1 if rf.ct(k).text in ('(', '[', '{') else k + 1
+                    hit = (ci, k + 1); break
+                ci += 1
+            if hit is None:
+                raise ExtractError(f'{self._where()}: A1: `let {name}` not found')
+            self.ed.delete(rf.ct(hit[0]).start, rf.ct(hit[1] - 1).end)
+            covered.append(hit)
+            self.desugared.append({'rule': 'A1 (abstraction)', 'before': ' '.join(rf.spaced(hit[0], hit[1]).split()), 'after': '(dropped: used only inside abstracted tests)'})
+        for name in lets:
+            for ci in range(lo, end):
+                if rf.ct(ci).kind == 'ident' and rf.ct(ci).text == name and not any(a <= ci < b for a, b in covered):
+                    raise ExtractError(f'{self._where()}: A1: `{name}` is still used outside the abstracted expressions')
 
     def _splice_proof(self, p, loops):
         rf, it = self.rf, self.it
